@@ -150,9 +150,14 @@ package subscribe
 //@ ghost registered bool
 //@ func addSubscription
 //@   props C04 C06 C12
-//@   requires m != nil && s != nil && c != nil
+//@   requires m != nil && m.tree != nil && TrieWf() && s != nil && c != nil
+//@   requires forall i int :: 0 <= i && i < len(s.Subscription) ==> s.Subscription[i] != nil
 //@   effect registered := true
-//@   ensures res0 != nil
+//@   allocates match.branch
+//@   modifies heap(match.branch.clients), heap(match.branch.children), mapheap(m.tree.clients), mapheap(m.tree.children)
+//@   invariant 0: TrieWf() && (arr(removes) == 0 || (fresh(removes) && !frozen(removes) && arr(removes) != arr(prefix))) && view(prefix) == idxpath(s.Prefix, true) && cap(prefix) == len(prefix)
+//@   ensures res0 != nil && TrieWf()
+//@   assert at call (*Match).AddQuery#0: [query-is-prefix-origin-path C06] view(arg1) == SubQuery(s, p) && box(c) == arg2
 //@ func result addSubscription
 //@   note the returned closure only runs the remove functions handed out by match.AddQuery
 //@ func result (*Server).updateTargetCounts
@@ -185,4 +190,34 @@ package subscribe
 //@ func (*Server).Subscribe$1
 //@   props C05 C12
 //@   requires s != nil && s.c != nil && StreamClientWf(c)
+//@   modifies *
+
+// ---- matching (C06) -----------------------------------------------------------
+// The subscription path registered with the matcher: target and origin of the
+// prefix (or the path's origin when the prefix has none), the prefix elements,
+// then the path elements.
+//@ pred SubQuery(s *pb.SubscriptionList, p *pb.Path) := ite(OriginOfP(s.Prefix) == "" && p.Origin != "",
+//@   idxpath(s.Prefix, true) ++ unit(p.Origin) ++ idxpath(p, false), idxpath(s.Prefix, true) ++ idxpath(p, false))
+//@ pred OriginOfP(p *pb.Path) := ite(p == nil, "", p.Origin)
+
+// UpdateNotification: whatever the number of updates, deletes and matching
+// subscription paths, each client is invoked at most once per notification.
+//@ func UpdateNotification
+//@   props C06 C08 C12
+//@   requires m != nil && m.tree != nil && TrieWf() && n != nil && !frozen(prefix)
+//@   requires (forall i int :: 0 <= i && i < len(n.Update) ==> n.Update[i] != nil)
+//@   modifies ghost notified, ghost visitedB, elems(prefix)
+//@   invariant 0: [once-so-far C06] TrieWf() && updated != nil && fresh(updated) && (forall c any :: notified[c] - old(notified[c]) == ite(has(updated, c), 1, 0))
+//@   invariant 1: [once-so-far C06] TrieWf() && updated != nil && fresh(updated) && (forall c any :: notified[c] - old(notified[c]) == ite(has(updated, c), 1, 0))
+//@   ensures [at-most-once-per-notification C06] forall c any :: notified[c] - old(notified[c]) <= 1 && notified[c] >= old(notified[c])
+
+//@ func (*Server).Update
+//@   props C06 C08 C12
+//@   requires s != nil && s.m != nil && s.m.tree != nil && TrieWf()
+//@   modifies ghost notified, ghost visitedB
+
+// matchClient.Update only inserts into the (unbounded, coalescing) queue: it never blocks.
+//@ func (matchClient).Update
+//@   props C08 C06 C12
+//@   requires c.q != nil && c.q.closed != nil && c.q.inserted != nil && !closed(c.q.inserted)
 //@   modifies *
